@@ -24,7 +24,10 @@ def make_dataset(fp, d, rowcounts, scheme):
     df = pd.DataFrame({"x": np.arange(n, dtype="int64") * 13 + 70001,
                        "s": pd.Series(["v%04d" % (i * 7) for i in range(n)], dtype="str"),
                        "k": pd.Categorical([["ka", "kb", "kc"][i % 3] for i in range(n)]),
-                       "f": [np.nan if i % 4 == 3 else i * 0.5 + 0.125 for i in range(n)]})
+                       "f": [np.nan if i % 4 == 3 else i * 0.5 + 0.125 for i in range(n)],
+                       # a time-zone aware column (the zone is handle state, restored from the metadata) and a nullable one
+                       "t": pd.Series(pd.date_range("2021-03-27 22:00", periods=n, freq="h", tz="Europe/Paris")),
+                       "n": pd.array([None if i % 5 == 2 else i * 3 - 4 for i in range(n)], dtype="Int64")})
     offs = [sum(rowcounts[:i]) for i in range(len(rowcounts))]
     path = os.path.join(d, "ds-" + scheme + ("" if scheme == "hive" else ".parquet"))
     fp.write(path, df, file_scheme=scheme, row_group_offsets=offs, write_index=False)
@@ -41,10 +44,15 @@ def make_foreign(d, rowcounts):
     ss = ["v%04d" % (i * 7) for i in range(n)]
     ks = [["ka", "kb", "kc"][i % 3] for i in range(n)]
     fs = [None if i % 4 == 3 else i * 0.5 + 0.125 for i in range(n)]
+    t0 = int(pd.Timestamp("2021-03-27 22:00", tz="Europe/Paris").value // 1000)
+    ts = [t0 + i * 3600 * 10 ** 6 for i in range(n)]
+    ns = [None if i % 5 == 2 else i * 3 - 4 for i in range(n)]
     schema = [{"name": "x", "type": "INT64", "repetition": "REQUIRED", "converted_type": None},
               {"name": "s", "type": "BYTE_ARRAY", "repetition": "REQUIRED", "converted_type": "UTF8"},
               {"name": "k", "type": "BYTE_ARRAY", "repetition": "REQUIRED", "converted_type": "UTF8"},
-              {"name": "f", "type": "DOUBLE", "repetition": "OPTIONAL", "converted_type": None}]
+              {"name": "f", "type": "DOUBLE", "repetition": "OPTIONAL", "converted_type": None},
+              {"name": "t", "type": "INT64", "repetition": "REQUIRED", "converted_type": "TIMESTAMP_MICROS"},
+              {"name": "n", "type": "INT64", "repetition": "OPTIONAL", "converted_type": None}]
     rgs, a = [], 0
     for c in rowcounts:
         b = a + c
@@ -53,13 +61,16 @@ def make_foreign(d, rowcounts):
                     "pages": [{"version": 1, "encoding": "PLAIN", "values": vals, "def_levels": levels}]}
         rgs.append({"num_rows": c, "columns": [
             col("x", xs[a:b]), col("s", [v.encode() for v in ss[a:b]]), col("k", [v.encode() for v in ks[a:b]]),
-            col("f", [v for v in fs[a:b] if v is not None], [0 if v is None else 1 for v in fs[a:b]])]})
+            col("f", [v for v in fs[a:b] if v is not None], [0 if v is None else 1 for v in fs[a:b]]),
+            col("t", ts[a:b]), col("n", [v for v in ns[a:b] if v is not None], [0 if v is None else 1 for v in ns[a:b]])]})
         a = b
     path = os.path.join(d, "ds-foreign.parquet")
     with open(path, "wb") as f:
         f.write(PW.build_file({"created_by": "parquet-mr version 1.12.0 (build abc)", "schema": schema, "row_groups": rgs}))
     df = pd.DataFrame({"x": np.array(xs, dtype="int64"), "s": pd.Series(ss, dtype=object), "k": pd.Series(ks, dtype=object),
-                       "f": [np.nan if v is None else v for v in fs]})
+                       "f": [np.nan if v is None else v for v in fs],
+                       "t": pd.to_datetime(pd.Series(ts, dtype="int64"), unit="us"),       # no zone recorded in a foreign file
+                       "n": pd.array(ns, dtype="Int64")})
     return path, df
 
 
@@ -153,15 +164,27 @@ def _run_program(fp, target, path, df, rowcounts, prog, outcome):
             probs.append("number of rows read differs from the rows of the view")
         else:
             for c in cols:
-                a = [None if (v is None or v != v) else ((v.decode() if isinstance(v, bytes) else str(v)) if c in ("s", "k") else float(v))
-                     for v in got[c].astype(object)]
-                b = [None if (v is None or v != v) else (str(v) if c in ("s", "k") else float(v)) for v in want[c].astype(object)]
+                a = [_cell(c, v) for v in got[c].astype(object)]
+                b = [_cell(c, v) for v in want[c].astype(object)]
                 if a != b:
                     probs.append("cells differ from the corresponding part of the full read")
                     break
     except BaseException as e:  # noqa
         probs.append("partial read raised %s" % type(e).__name__)
     return probs
+
+
+def _cell(c, v):
+    """comparable form of a cell: text, float, or - for the time column - the instant AND whether it carries a zone"""
+    import pandas as pd
+    if v is None or v is pd.NA or v is pd.NaT or v != v:
+        return None
+    if c in ("s", "k"):
+        return v.decode() if isinstance(v, bytes) else str(v)
+    if c == "t":
+        v = pd.Timestamp(v)
+        return ("aware" if v.tzinfo is not None else "naive", (v.tz_convert("UTC").tz_localize(None) if v.tzinfo is not None else v).value)
+    return float(v)
 
 
 def replay_chunk(args):
